@@ -10,7 +10,10 @@ import (
 )
 
 var k2Kinds = map[string]bool{"index": true, "slice": true, "div0": true, "shift": true, "typeassert": true, "makeslice": true, "nilmap": true,
-	"panic": true, "libpre": true, "nilfunc": true, "nilinvoke": true, "nilderef": true}
+	"panic": true, "libpre": true, "stackneed": true, "nilfunc": true, "nilinvoke": true, "nilderef": true}
+
+// obligations tied to a piece of code structure (a loop, a call site) rather than to the function's interface
+var structuralKinds = map[string]bool{"loop-entry": true, "loop-preserved": true, "callpre": true, "closure": true, "typeinv": true}
 
 func kindOfName(name string) string {
 	i := strings.Index(name, "#")
@@ -105,8 +108,10 @@ func report(id string, opt runOpts, L *Loaded, results []*UnitResult, outcomes m
 				nClaimedChecked++
 				continue
 			}
-			if k2Kinds[kind] {
-				continue // the operation no longer exists in the code: vacuously safe
+			if k2Kinds[kind] || structuralKinds[kind] {
+				// the operation / loop / call site no longer exists in the code: nothing to prove about it; what the
+				// function must still guarantee is carried by its postconditions, which stay claimed
+				continue
 			}
 			viols = append(viols, viol{n, nil, "claimed obligation is no longer generated (function, clause or loop removed or renamed)"})
 			nClaimedChecked++
